@@ -29,6 +29,7 @@ class C12(Prop):
     def models(self):
         for n in (1, 2):
             self.model("MC_StabSem", "MC_StabSem_c05_n%d.cfg" % n, name="stabsem_n%d" % n, expect_distinct=(7 if n == 1 else 91))
+            self.model("MC_Project", "MC_Project_n%d.cfg" % n, name="project_n%d" % n)
         self.maps = {}
         for n in (1, 2):
             pf = "%s/maps_n%d.txt" % (self.wd, n)
